@@ -14,7 +14,6 @@ import (
 
 	"pgregory.net/rapid"
 	"reduction.dev/reduction-protocol/jobconfigpb"
-	"reduction.dev/reduction/clocks"
 	"reduction.dev/reduction/config"
 	"reduction.dev/reduction/connectors"
 	"reduction.dev/reduction/jobs"
@@ -191,7 +190,7 @@ type worker struct {
 
 func exec(p prog, c *hx.Case) error {
 	w := &world{failNext: map[string]bool{}}
-	clock := clocks.NewFrozenClock()
+	clock := hx.NewClock()
 	loc := coord.NewLoc("/job")
 	errc := make(chan error, 64)
 	job, err := jobs.New(&jobs.NewParams{
